@@ -2,6 +2,7 @@ package lang
 
 import (
 	"cmp"
+	"fmt"
 	"math"
 	"slices"
 	"strings"
@@ -181,11 +182,14 @@ func getObjPrototype() *Value {
 				NativeFn: func(e *Evaluator, v []*Value, this *Value) (*Value, error) {
 					newObj := NewObject()
 					for _, value := range v {
-						val, err := this.GetMember(*value)
-						if err != nil {
-							return nil, err
+						if value.Tag != ValueNum && value.Tag != ValueStr {
+							return nil, fmt.Errorf("objects can only by indexed with numbers or strings, got %s", value.Tag)
 						}
+						// only the object's own keys: a requested key that happens to
+						// name a method (length, pluck) is absent, not the method
+						val := (*this.Obj)[value.String()]
 
+						var err error
 						if val == nil {
 							_, err = newObj.SetMember(*value, NewCell(NewValue(nil)))
 						} else {
